@@ -153,11 +153,65 @@ harness!(flat_last_4, unwind = 7, |s| { flat_last::<S, 4, 5>(s) });
 harness!(deep_perm_desc_4, unwind = 7, |s| { deep_order::<S, 4, 5>(s, false) });
 harness!(deep_ltr_4, unwind = 7, |s| { deep_order::<S, 4, 5>(s, true) });
 
+// ---------------------------------------------------------------- unary attachment sites (assumption A-attach, now checked)
+// The two statements that choose the operator a parenthesis group's unary chain is attached to are cut
+// from flat.rs on every run (extract/gen_tables.py::gen_attach) into `gen_attach.rs`.  Contract, from the
+// property text ("unary operators bind tighter ... parentheses first"): the chain must sit on the operator
+// that is applied LAST inside the group, i.e. the right-most operator of minimal priority among the
+// operators of the group (for the parser: the trailing run of operators with priority >= depth * 1000).
+fn attach_ops<S: Src, const N: usize>(s: &mut S) -> (crate::gen_attach::FlatOpVec<i32>, [i64; N]) {
+    let i = table::<S, N>(s);
+    let mut v: crate::gen_attach::FlatOpVec<i32> = smallvec::SmallVec::new();
+    for k in 0..N {
+        v.push(FlatOp { unary_op: UnaryOp::new(), bin_op: BinOpWithIdx { op: BinOp { apply: f, prio: i.prio[k], is_commutative: i.comm[k] }, idx: k } });
+    }
+    (v, i.prio)
+}
+fn attach_parse<S: Src, const N: usize>(s: &mut S) {
+    let (mut ops, prio) = attach_ops::<S, N>(s);
+    let depth = s.choice(3) as i64;
+    let got = crate::gen_attach::attach_target_parse(&mut ops, depth);
+    // reference: walk from the right while the priority belongs to this depth or deeper; right-most minimum
+    let mut best: Option<usize> = None;
+    let mut k = N;
+    while k > 0 {
+        k -= 1;
+        if prio[k] < depth * 1000 { break; }
+        match best { None => best = Some(k), Some(b) => if prio[k] < prio[b] { best = Some(k); } }
+    }
+    assert!(got == best, "C01 parser: the unary chain of a closing parenthesis group is attached to the right-most operator of minimal priority of that group");
+    core::mem::forget(ops);
+}
+fn attach_flatten<S: Src, const N: usize>(s: &mut S) {
+    let (mut ops, prio) = attach_ops::<S, N>(s);
+    let got = crate::gen_attach::attach_target_flatten(&mut ops);
+    let mut best = N - 1;
+    let mut k = N - 1;
+    while k > 0 { k -= 1; if prio[k] < prio[best] { best = k; } }
+    assert!(got == best, "C01 deep -> flat: the unary chain of a deep expression is attached to the right-most operator of minimal priority");
+    core::mem::forget(ops);
+}
+harness!(attach_parse_3, unwind = 6, |s| { attach_parse::<S, 3>(s) });
+harness!(attach_flatten_3, unwind = 6, |s| { attach_flatten::<S, 3>(s) });
+pub fn attach_parse_40<S: Src>(s: &mut S) { attach_parse::<S, 40>(s) }
+pub fn attach_flatten_40<S: Src>(s: &mut S) { attach_flatten::<S, 40>(s) }
+
+// native-only: exhaustive enumeration (`exmex_replay --exhaust`) of sizes CBMC cannot reach (flat form with 4
+// operators: > 28 GB); base priorities 0..=3
+pub fn flat_perm_desc_5<S: Src>(s: &mut S) { flat_perm_desc::<S, 5, 6>(s) }
+pub fn flat_ltr_5<S: Src>(s: &mut S) { flat_ltr::<S, 5, 6>(s) }
+pub fn flat_last_5<S: Src>(s: &mut S) { flat_last::<S, 5, 6>(s) }
+pub fn deep_ltr_5<S: Src>(s: &mut S) { deep_order::<S, 5, 6>(s, true) }
+pub fn attach_parse_4<S: Src>(s: &mut S) { attach_parse::<S, 4>(s) }
+pub fn attach_parse_5<S: Src>(s: &mut S) { attach_parse::<S, 5>(s) }
+pub fn attach_flatten_4<S: Src>(s: &mut S) { attach_flatten::<S, 4>(s) }
+pub fn attach_flatten_5<S: Src>(s: &mut S) { attach_flatten::<S, 5>(s) }
+
 // native-only sampled probes beyond the inline capacity of the index SmallVec (32): the same contract
 // bodies with 40 operators; run by `exmex_replay --search`, never under Kani, never counted as proved
 pub fn flat_perm_desc_40<S: Src>(s: &mut S) { flat_perm_desc::<S, 40, 41>(s) }
 pub fn flat_ltr_40<S: Src>(s: &mut S) { flat_ltr::<S, 40, 41>(s) }
 pub fn deep_ltr_40<S: Src>(s: &mut S) { deep_order::<S, 40, 41>(s, true) }
 
-registry!("u6", flat_perm_desc_40, flat_ltr_40, deep_ltr_40, flat_perm_desc_3, flat_ltr_3, flat_last_3, deep_perm_desc_3, deep_ltr_3,
+registry!("u6", flat_perm_desc_5, flat_ltr_5, flat_last_5, deep_ltr_5, attach_parse_4, attach_parse_5, attach_flatten_4, attach_flatten_5, attach_parse_3, attach_flatten_3, attach_parse_40, attach_flatten_40, flat_perm_desc_40, flat_ltr_40, deep_ltr_40, flat_perm_desc_3, flat_ltr_3, flat_last_3, deep_perm_desc_3, deep_ltr_3,
     flat_perm_desc_4, flat_ltr_4, flat_last_4, deep_perm_desc_4, deep_ltr_4);
